@@ -59,11 +59,15 @@ class DirHandler(BaseHandler):
                     self.config,
                     vfs=self.vfs,
                 )
+                fileentry = handler.getentry()
             except GopherExceptions.FileNotFound:
                 # Nobody can serve this entry (dangling link, special file,
                 # vanished, rejected name): leave it out, keep the listing.
                 continue
-            fileentry = handler.getentry()
+            except OSError:
+                # A handler had to look into the file (HTML title, first line
+                # of a mailbox, archive signature) and may not: same thing.
+                continue
             self.prep_entriesappend(file, handler, fileentry)
 
     def prep_entriesappend(
